@@ -62,6 +62,10 @@ func newPhiWalker(ctx *promotionContext) *phiWalker {
 		currentValue: make(map[uint32]ir.ExpressionHandle),
 		candidates:   selectStructuredCandidates(ctx),
 	}
+	// Variables stored inside a loop keep their alloca lowering (see handleLoop).
+	// Disqualify them before the walk starts: dropping a candidate only when the
+	// walk reaches the loop loses the stores already removed in front of it.
+	disqualifyLoopStored(&ctx.localPtrs, w.candidates, ctx.fn.Body)
 	// Seed initial values from each candidate's Init or a fresh ZeroValue.
 	for v := range w.candidates {
 		w.currentValue[v] = initialValueOf(ctx, v)
@@ -362,6 +366,28 @@ func (w *phiWalker) handleLoop(stmtPtr *ir.Statement) []ir.Statement {
 		BreakIf:    sk.BreakIf,
 	}
 	return nil
+}
+
+// disqualifyLoopStored removes from candidates every variable that is stored
+// inside some loop of block, at any nesting depth.
+func disqualifyLoopStored(ptrs *localPtr, candidates map[uint32]struct{}, block []ir.Statement) {
+	for i := range block {
+		switch sk := block[i].Kind.(type) {
+		case ir.StmtLoop:
+			for v := range collectLoopStores(ptrs, candidates, sk) {
+				delete(candidates, v)
+			}
+		case ir.StmtBlock:
+			disqualifyLoopStored(ptrs, candidates, []ir.Statement(sk.Block))
+		case ir.StmtIf:
+			disqualifyLoopStored(ptrs, candidates, []ir.Statement(sk.Accept))
+			disqualifyLoopStored(ptrs, candidates, []ir.Statement(sk.Reject))
+		case ir.StmtSwitch:
+			for ci := range sk.Cases {
+				disqualifyLoopStored(ptrs, candidates, []ir.Statement(sk.Cases[ci].Body))
+			}
+		}
+	}
 }
 
 // collectLoopStores returns the set of candidate variables that have
